@@ -1,0 +1,3 @@
+// Package vlang exposes the schema parser and the compiler/generator pipeline (internal/lang) to
+// an external verification harness. Everything except this file is guarded by the build tag `verif`.
+package vlang
